@@ -7,6 +7,27 @@ V = "/verif"
 PY = "/venv/bin/python"
 
 CHECKS = {
+ "C01": dict(cat="model_checking", technique="trace validation by TLC (spec/TraceRoundTrip.tla) of recorded load->dump->load executions; documents from spec/Reader.tla + SlotProbe.tla and the repository corpus",
+   text="For every corpus file the parser accepts (all of them in the thorough tier), every point of the slot product and TLC-simulated documents, the typed projections of loads(t) and loads(dumps(loads(t))) are recorded and TLC decides TreeEq with exactly the two allowances the property names (enum letter case, number -> equal numeric string in string-typed slots, both decided from the extracted schema vocabulary) plus the clause that the written text is accepted.",
+   note="Trusted: TLC, harness projection/interning (harness/project.py, tracecheck.py), CPython str.lower()/str(). Values in the documented exclusion classes are marked by the harness (contains output quote; looks like expression/regex/list/binding) and skipped by the spec per value; string contents sampled.",
+   ref="7/C01"),
+ "C03": dict(cat="model_checking", technique="TLA+ Writer contract (spec/Writer.tla, Editor.tla): TLC-generated documents and dict-API edit histories with predicted line events, compared with an independent reader's view of dumps output",
+   text="TLC emits documents (slot product + simulated walks) and edit histories (set/replace/delete keyword, add/remove/reorder child objects, assign parsed snippets, read missing keys) together with the line events spec/Writer.tla predicts after every edit (or 'refuse'); the real dict is built and edited through the dict API, dumped, and an independent reader (harness/mapreader.py, never imports mappyfile) must see exactly those lines: kind, keyword, nesting level, lexical class and content of every value. Model-level: balanced line sequences, refusal only reachable through reading a missing key.",
+   note="Trusted: TLC, harness/mapreader.py (self-tested on every run against a mappyfile-free reference rendering of the predicted events), concretise.py pools. Strings containing the output quote are not generated (documented exclusion).",
+   ref="7/C03"),
+ "C04": dict(cat="model_checking", technique="trace validation by TLC (spec/TraceOptions.tla JudgeIdem) over TLC-enumerated option sets (spec/Options.tla)",
+   text="For (document, option set) pairs - option sets drawn as a pairwise cover (quick) or a sixth (thorough) of the 720-set product TLC enumerates - pass1=dumps(loads(src)), pass2=dumps(loads(pass1)) are produced by the real code; TLC requires equal byte digests, exactly equal reloaded projections, equal text when dumping again, and equal text from a second interpreter with another PYTHONHASHSEED.",
+   note="TLC cannot hash bytes: digests are computed and interned by the harness; TLA+ contributes option enumeration, clause structure and the structural comparison. Trusted: sha1, harness projection.",
+   ref="7/C04"),
+ "C06": dict(cat="model_checking", technique="trace validation by TLC (spec/TraceOptions.tla) over the TLC-enumerated option cross product (spec/Options.tla)",
+   text="TLC enumerates the full option product (9x2x2x3x2x2x2, 720 in scope) and the harness applies a pairwise cover (quick) or every set (thorough, generated docs) to generated documents and corpus files; TLC compares the projection of loads(dumps(d,opts)) with loads(dumps(d)) and, under separate_complex_types, checks per object that the key order is the stable partition simple|block-valued of the default order.",
+   note="Trusted: TLC, harness projection. Documents with quote characters inside strings are left out, as the quantifier says.",
+   ref="7/C06"),
+ "C16": dict(cat="model_checking", technique="trace validation by TLC (spec/TraceLayout.tla): the printed text is the trace; stack machine over measured lines with the layout functions of spec/Options.tla",
+   text="For (document, option set) pairs the independent reader measures every physical line of dumps output (nesting level from open/END structure, leading white space, value offset, END comment, line breaks); TLC re-derives indentation = level x indent x spacer, END at the opener's indentation, END comment = block type, the alignment column (first multiple of indent past the longest simple keyword) and that every break is newlinechar.",
+   note="Trusted: TLC, harness/mapreader.py line measurement. Multi-line string continuation lines are exempt (as the property says); key-value block pair alignment and root-level METADATA blocks are outside the statement and not judged.",
+   ref="7/C16"),
+
  "C02": dict(cat="model_checking", technique="TLA+ Reader contract (spec/Reader.tla): TLC model checking + TLC-generated behaviours replayed into loads, dict compared with the spec's prediction after every action",
    text="TLC exhaustively checks the Reader invariants on all documents of <=2 (thorough 3) builder actions over the whole extracted vocabulary; every point of the slot product (type x keyword x value alternative x position, ~4.9k documents) and TLC-simulated random documents (nesting <=5, up to 400 items) are rendered by an independent renderer and loaded by the real code, and the typed, ordered projection of the result must equal the dict the TLA+ contract predicts - per builder action on short walks.",
    note="Trusted: TLC, the renderer harness/concretise.py (lexeme pools, content function), CPython int()/float()/str.lower(). String contents are sampled from pools (seeded), not enumerated. Worker objects are reused; the public loads is sampled.",
